@@ -21,6 +21,8 @@ func runExtraProfile(name, root string, w *bufio.Writer, seed uint64, n, ops int
 		genSched(w, root, seed, n, ops)
 	case "dread":
 		genDread(w, root, seed, n, ops%100, ops >= 100)
+	case "bstorm":
+		genBlockStorm(w, root, seed, n, ops)
 	case "blocking":
 		genBlocking(w, root, seed, n, ops)
 	case "crash":
